@@ -11,6 +11,7 @@ structure St where
   syms  : List Sym := []
   bind  : Binding := { param := [], data := [] }
   dev   : Dev := Dev.init
+  intArr : List Nat := []     -- Data indices whose array holds integers (`arr <d> i`)
 
 def decStr (h : String) : Option Str := do
   let bs ← Drv.unhex h
@@ -128,23 +129,49 @@ def stepLine (st : St) (line : String) : St × String :=
     | .error (.parse e) =>
       ({ st with bind := { param := [], data := [] } },
        s!"exc:ParseException {encStr e.file} {e.line} {showKind e.kind} {encStr e.label} {encStr e.extra}")
-  | ["devinit"] => ({ st with dev := Dev.init }, "ok")
+  | ["cfg", ps, fs, as] =>
+    -- name=idx,... / name=idx,... / name=d:e,...
+    let decIdx (t : String) : Option (Str × Nat) :=
+      match t.splitOn "=" with
+      | [n, i] => do let n' ← decStr n; let i' ← i.toNat?; pure (n', i')
+      | _ => none
+    let decPair (t : String) : Option (Str × (Nat × Nat)) :=
+      match t.splitOn "=" with
+      | [n, de] =>
+        match de.splitOn ":" with
+        | [d, e] => do let n' ← decStr n; let d' ← d.toNat?; let e' ← e.toNat?; pure (n', (d', e'))
+        | _ => none
+      | _ => none
+    match (splitComma ps).mapM decIdx, (splitComma fs).mapM decIdx, (splitComma as).mapM decPair with
+    | some p, some f, some a =>
+      match fromConfig p f a with
+      | .ok b =>
+        ({ st with bind := { param := b, data := [] } },
+         s!"ok par={joinComma (sortStrings (b.map (fun kv => s!"{encStr kv.1}:{showDesc kv.2}")))}")
+      | .error n => ({ st with bind := { param := [], data := [] } }, s!"exc:QMI_ConfigurationException {encStr n}")
+    | _, _, _ => (st, "bad-op")
+  | ["devinit"] => ({ st with dev := Dev.init, intArr := [] }, "ok")
+  | ["arr", d, k] =>
+    match d.toNat?, k with
+    | some d', "i" => ({ st with intArr := d' :: st.intArr }, "ok")
+    | some d', "f" => ({ st with intArr := st.intArr.filter (· != d') }, "ok")
+    | _, _ => (st, "bad-op")
   | ["get", n] =>
     match decStr n with
     | some n' =>
-      let o := getPar st.bind.param st.dev n'
+      let o := getParC st.bind.param st.dev n'
       ({ st with dev := o.dev }, match o.res with | .ok v => s!"ok {v.num}" | .error x => showExc x)
     | none => (st, "bad-op")
   | ["set", n, v] =>
     match decStr n, decVal v with
     | some n', some v' =>
-      let o := setPar st.bind.param st.dev n' v'
+      let o := setParC st.bind.param (fun d => st.intArr.contains d) st.dev n' v'
       ({ st with dev := o.dev }, showUnit o)
     | _, _ => (st, "bad-op")
   | ["mget", ns] =>
     match (splitComma ns).mapM decStr with
     | some names =>
-      let o := getParMultiple st.bind.param st.dev names
+      let o := getParMultipleC st.bind.param st.dev names
       ({ st with dev := o.dev },
        match o.res with
        | .ok r => s!"ok {joinComma (sortStrings (r.map (fun kv => s!"{encStr kv.1}={kv.2.num}")))}"
@@ -153,13 +180,13 @@ def stepLine (st : St) (line : String) : St × String :=
   | ["mset", as] =>
     match (splitComma as).mapM decAssign with
     | some ps =>
-      let o := setParMultiple st.bind.param st.dev ps
+      let o := setParMultipleC st.bind.param (fun d => st.intArr.contains d) st.dev ps
       ({ st with dev := o.dev }, showUnit o)
     | none => (st, "bad-op")
   | ["startwp", as] =>
     match (splitComma as).mapM decAssign with
     | some kw =>
-      let o := setParMultiple st.bind.param st.dev (startParams st.bind.param kw)
+      let o := setParMultipleC st.bind.param (fun d => st.intArr.contains d) st.dev (startParams st.bind.param kw)
       ({ st with dev := o.dev }, showUnit o)
     | none => (st, "bad-op")
   | ["log"] =>
